@@ -8,6 +8,7 @@ import (
 	"math"
 	"reflect"
 	"sort"
+	"sync"
 	"unsafe"
 
 	stackage "github.com/JesseCoretta/go-stackage"
@@ -319,4 +320,44 @@ func extraTuples(method string) []argTuple {
 		return []argTuple{mk("1, 1", 1, 1), mk("0, 0", 0, 0), mk("1, 0, 0", 1, 0, 0), mk("2, -1", 2, -1), mk("3, 1", 3, 1), mk("4, 0", 4, 0), mk("5, 1", 5, 1), mk("6, 0", 6, 0)}
 	}
 	return nil
+}
+
+// observeAll issues every argument-free query (methods by reflection, classified as in C11) plus a few
+// argument-taking ones on a Stack or Condition and discards the answers. Engine A's "observed
+// histories" use it: see Machine.Observe.
+var observeCache sync.Map // reflect.Type -> []int (method indices)
+
+func observeAll(x any) {
+	if x == nil {
+		return
+	}
+	t := reflect.TypeOf(x)
+	pv := reflect.New(t)
+	pv.Elem().Set(reflect.ValueOf(x))
+	var idx []int
+	if v, ok := observeCache.Load(t); ok {
+		idx = v.([]int)
+	} else {
+		pt := pv.Type()
+		for i := 0; i < pt.NumMethod(); i++ {
+			mt := pv.Method(i).Type()
+			if mt.NumIn() == 0 && mt.NumOut() > 0 && c11IsQuery(pt.Method(i).Name) {
+				idx = append(idx, i)
+			}
+		}
+		observeCache.Store(t, idx)
+	}
+	for _, i := range idx {
+		pv.Method(i).Call(nil)
+	}
+	switch v := x.(type) {
+	case stackage.Stack:
+		v.Index(0)
+		v.Index(-1)
+		v.Traverse(0)
+		v.Less(0, 1)
+		v.IsEqual(v)
+	case stackage.Condition:
+		v.IsEqual(v)
+	}
 }
